@@ -1,30 +1,67 @@
-use qv::{app::*, cfg::*, world::*};
+use qv::check::{self, Ctx, Tier};
+
+fn usage() -> ! {
+    eprintln!("usage: qv check <ID> [--tier quick|thorough] [--seed N] [--threads N] [--replay FILE]");
+    std::process::exit(2)
+}
 
 fn main() {
-    let seed: u64 = std::env::args().nth(1).and_then(|s| s.parse().ok()).unwrap_or(1);
-    let mut srv = ServerSpec::default();
-    srv.app.respond_max = 50_000;
-    let specs = vec![EpSpec::new(0, Some(srv)), EpSpec::new(1, None)];
-    let mut net = NetCfg::default();
-    net.loss_pm = 50;
-    net.dup_pm = 30;
-    net.reorder_pm = 50;
-    let mut w = World::new(seed, Lane::Null, specs, net, DriverCfg::default());
-    let mut app = AppCfg::default();
-    for i in 0..6 {
-        app.plans.push(StreamPlan { bidi: i % 2 == 0, len: 100_000 + i * 1000, chunk: 5000, use_write_chunks: i % 3 == 0, end: EndMode::Finish, prio: 0 });
+    let args: Vec<String> = std::env::args().collect();
+    if args.len() < 3 || args[1] != "check" {
+        usage();
     }
-    w.connect(1, 0, TcfgP::default(), app).unwrap();
-    let t = std::time::Instant::now();
-    let end = w.run(200_000, 600_000_000_000, |w| w.all_connected() && w.workload_complete() && w.steps > 5);
-    println!("end={end:?} steps={} now={}ms wall={:?}", w.steps, w.now / 1_000_000, t.elapsed());
-    println!("led {:?}", w.led.cnt.m);
-    println!("mon {:?}", w.mon.cnt.m);
-    println!("net {:?}", w.net.fired.m);
-    for v in w.all_violations() {
-        println!("VIOL {} {}", v.prop, v.msg);
+    let id = args[2].clone();
+    let mut tier = match std::env::var("VERIF_TIER").as_deref() {
+        Ok("thorough") => Tier::Thorough,
+        _ => Tier::Quick,
+    };
+    let mut seed: u64 = std::env::var("VERIF_SEED").ok().and_then(|s| s.parse().ok()).unwrap_or(1);
+    let mut threads = std::thread::available_parallelism().map(|n| n.get()).unwrap_or(8);
+    let mut replay = None;
+    let mut i = 3;
+    while i < args.len() {
+        match args[i].as_str() {
+            "--tier" => {
+                i += 1;
+                tier = if args[i] == "thorough" { Tier::Thorough } else { Tier::Quick };
+            }
+            "--seed" => {
+                i += 1;
+                seed = args[i].parse().unwrap_or(1);
+            }
+            "--threads" => {
+                i += 1;
+                threads = args[i].parse().unwrap_or(threads);
+            }
+            "--replay" => {
+                i += 1;
+                let s = std::fs::read_to_string(&args[i]).expect("read replay file");
+                let v: serde_json::Value = serde_json::from_str(&s).expect("parse replay file");
+                replay = Some((
+                    v["group"].as_str().unwrap().to_string(),
+                    v["case_index"].as_u64().unwrap(),
+                    v["case_seed"].as_u64().unwrap(),
+                ));
+                if let Some(rs) = v["run_seed"].as_u64() {
+                    seed = rs;
+                }
+                if v["tier"].as_str() == Some("thorough") {
+                    tier = Tier::Thorough;
+                }
+            }
+            _ => usage(),
+        }
+        i += 1;
     }
-    for (k, f) in &w.led.flows {
-        println!("{k:?} written={} fin={:?} eos={} finished_evt={} delivered={:?}", f.written, f.fin_at, f.eos, f.finished_evt, f.delivered.as_slice());
-    }
+    check::install_panic_hook();
+    let prop: &'static str = Box::leak(id.clone().into_boxed_str());
+    let ctx = Ctx { prop, tier, seed, threads, replay, verbose: false };
+    let code = match id.as_str() {
+        "C01" | "ANY" => check::c01::run(&ctx),
+        _ => {
+            eprintln!("unknown property {id}");
+            2
+        }
+    };
+    std::process::exit(code);
 }
